@@ -42,6 +42,10 @@
                                                                       clauses attr_colour, attr_italic, attr_underline
      a failure in the frame of a word for the other channel / of ignored text is named other_channel_ignored,
      in the frame of a suppressed copy doubled_control_once.
+     rows reused: when a PAC addresses a row that already holds text in the memory being written (a pop-on caption
+     composed over the older caption left in the non-displayed memory, paint-on onto a painted row) the reader does
+     not overlay cell by cell (documented design limitation).  A screen or attribute failure that is confined to
+     such rows - the screens agree on all other rows - carries the suffix _row_reused; it is still a failure.
    Timing: every begin / end is an exact frame multiple (begin_exact_frame, end_exact_frame); every frame at which
    the shown screen changes lies in the transmission window [frame of the word, frame after its doubled copy] of a
    word that changes the displayed memory - in roll-up also of the RU / CR / PAC that opens a row, in paint-on
@@ -172,6 +176,7 @@ Judge(r, fr, cands, O, special) ==
 Deferred(fr, from, e, cands, O, special) ==
   [fr |-> fr, from |-> from, ep |-> e, O |-> O, clause |-> StrictClause(cands, O, special),
    t |-> UNION {cands[j].t : j \in 1..Len(cands)},
+   rr |-> \E j \in 1..Len(cands) : cands[j].kind # "rollup" /\ EqExcept(cands[j].scr, O, cands[j].t),
    paint |-> \E j \in 1..Len(cands) : cands[j].kind = "painton"]
 
 WithExact(c, e) == [scr |-> c.scr, kind |-> c.kind, base |-> c.base, depth |-> c.depth, exact |-> e, t |-> c.t]
@@ -286,7 +291,7 @@ Resolve(r, d) ==
       \* ... or such a screen but for the reused rows
       futx == {j \in d.from..Len(hist) : hist[j].ep = d.ep /\ hist[j].kind # "rollup" /\ EqExcept(hist[j].scr, d.O, hist[j].t \cup d.t)}
   IN
-  IF fut = {} THEN Fail(r, d.fr, IF futx # {} /\ d.clause \in {"popon_screen", "painton_screen", "doubled_control_once", "other_channel_ignored"}
+  IF fut = {} THEN Fail(r, d.fr, IF (futx # {} \/ d.rr) /\ d.clause \in {"popon_screen", "painton_screen", "doubled_control_once", "other_channel_ignored"}
                                  THEN d.clause \o "_row_reused" ELSE d.clause)
                    /\ Dbg(<<"DBG", r, d.fr, <<>>, d.O>>)
   ELSE IF d.paint THEN Fail(r, d.fr, "painton_ahead_of_reception")
